@@ -112,3 +112,116 @@ def coverage(
         for st in node.body:
             visit(st, False, {})
     return out
+
+
+# ---- frame conditions: what a class's methods / a module's functions write outside their locals ----------
+
+_MUTATORS = {
+    "append", "insert", "pop", "extend", "remove", "clear", "update", "setdefault", "popitem",
+    "move_to_end", "add", "discard", "sort", "reverse", "appendleft", "popleft", "__setitem__", "__delitem__",
+}  # fmt: skip
+
+
+def methods_of(cls: type) -> dict[str, Any]:
+    methods: dict[str, Any] = {}
+    for name, member in cls.__dict__.items():
+        fn = member
+        if isinstance(member, (staticmethod, classmethod)):
+            fn = member.__func__
+        elif isinstance(member, property):
+            fn = member.fget
+        if inspect.isfunction(fn):
+            methods[name] = fn
+    return methods
+
+
+def _root_self_attr(e: ast.AST, self_name: str) -> str | None:
+    """self.X, self.X[...], self.X.y ... -> 'X' (the attribute of the shared object through which something is reached)."""
+    while isinstance(e, (ast.Attribute, ast.Subscript)):
+        if isinstance(e, ast.Attribute) and isinstance(e.value, ast.Name) and e.value.id == self_name:
+            return e.attr
+        e = e.value
+    return None
+
+
+def self_writes(cls: type, exempt_methods: set[str] = frozenset({"__init__"})) -> list[Access]:  # type: ignore[assignment]
+    """Every place where a method of ``cls`` stores to, deletes, or calls a mutator through an attribute of ``self``
+    (``self.x = ..``, ``self.x[k] = ..``, ``self.x.y = ..``, ``del self.x``, ``self.x += ..``, ``self.x.append(..)``,
+    ``setattr(self, ..)``, ``self.__dict__[..] = ..``) - the write set of the shared object, for frame obligations."""
+    out: list[Access] = []
+    for mname, fn in sorted(methods_of(cls).items()):
+        if mname in exempt_methods:
+            continue
+        node = source_of(fn).node
+        self_name = node.args.args[0].arg if node.args.args else "self"
+        for n in ast.walk(node):
+            if isinstance(n, (ast.Attribute, ast.Subscript)) and isinstance(getattr(n, "ctx", None), (ast.Store, ast.Del)):
+                f = _root_self_attr(n, self_name)
+                if f is not None:
+                    out.append(Access(mname, f, getattr(n, "lineno", 0), ast.unparse(n), False, "store/delete through self"))
+            elif isinstance(n, ast.Call) and isinstance(n.func, ast.Attribute) and n.func.attr in _MUTATORS:
+                f = _root_self_attr(n.func.value, self_name)
+                if f is not None:
+                    out.append(Access(mname, f, getattr(n, "lineno", 0), ast.unparse(n)[:120], False, f"mutating call .{n.func.attr}() through self"))
+            elif isinstance(n, ast.Call) and isinstance(n.func, ast.Name) and n.func.id in ("setattr", "delattr") and n.args and isinstance(n.args[0], ast.Name) and n.args[0].id == self_name:
+                nm = n.args[1].value if len(n.args) > 1 and isinstance(n.args[1], ast.Constant) else "<dynamic>"
+                out.append(Access(mname, str(nm), getattr(n, "lineno", 0), ast.unparse(n)[:120], False, f"{n.func.id}(self, ...)"))
+    return out
+
+
+def module_writes(module: Any) -> list[Access]:
+    """Writes to module-level state from inside functions/methods of ``module``: ``global x`` rebinding, and stores /
+    mutating calls through a module-level name that is not shadowed by a local or parameter."""
+    tree = ast.parse(open(module.__file__).read())
+    top: set[str] = set()
+    for st in tree.body:
+        if isinstance(st, ast.Assign):
+            for t in st.targets:
+                if isinstance(t, ast.Name):
+                    top.add(t.id)
+        elif isinstance(st, ast.AnnAssign) and isinstance(st.target, ast.Name):
+            top.add(st.target.id)
+    out: list[Access] = []
+
+    def fn_locals(fn: ast.AST) -> set[str]:
+        loc: set[str] = set()
+        a = fn.args  # type: ignore[attr-defined]
+        for x in [*a.posonlyargs, *a.args, *a.kwonlyargs, *( [a.vararg] if a.vararg else []), *([a.kwarg] if a.kwarg else [])]:
+            loc.add(x.arg)
+        glob: set[str] = set()
+        for n in ast.walk(fn):
+            if isinstance(n, ast.Global):
+                glob |= set(n.names)
+        for n in ast.walk(fn):
+            if isinstance(n, ast.Name) and isinstance(n.ctx, ast.Store) and n.id not in glob:
+                loc.add(n.id)
+        return loc
+
+    def root_name(e: ast.AST) -> str | None:
+        while isinstance(e, (ast.Attribute, ast.Subscript)):
+            e = e.value
+        return e.id if isinstance(e, ast.Name) else None
+
+    def scan(fn: ast.AST, qual: str, outer_locals: set[str]) -> None:
+        loc = fn_locals(fn) | outer_locals
+        for n in ast.walk(fn):
+            if isinstance(n, ast.Global):
+                for nm in n.names:
+                    out.append(Access(qual, nm, n.lineno, f"global {nm}", False, "rebinding of a module-level name"))
+            elif isinstance(n, (ast.Attribute, ast.Subscript)) and isinstance(getattr(n, "ctx", None), (ast.Store, ast.Del)):
+                r = root_name(n)
+                if r in top and r not in loc:
+                    out.append(Access(qual, r, n.lineno, ast.unparse(n), False, "store through a module-level name"))
+            elif isinstance(n, ast.Call) and isinstance(n.func, ast.Attribute) and n.func.attr in _MUTATORS:
+                r = root_name(n.func.value)
+                if r in top and r not in loc:
+                    out.append(Access(qual, r, n.lineno, ast.unparse(n)[:120], False, f"mutating call .{n.func.attr}() on a module-level name"))
+
+    for st in tree.body:
+        if isinstance(st, (ast.FunctionDef, ast.AsyncFunctionDef)):
+            scan(st, st.name, set())
+        elif isinstance(st, ast.ClassDef):
+            for m in st.body:
+                if isinstance(m, (ast.FunctionDef, ast.AsyncFunctionDef)):
+                    scan(m, f"{st.name}.{m.name}", set())
+    return out
